@@ -227,8 +227,10 @@ def machine_spec(
     return {"states": states, "trans": trans, "cbs": cbs, "guards": gdefs, "events": events}
 
 
-def is_async_spec(spec, providers=None):
+def is_async_spec(spec, providers=None, instance_cbs=True):
     def att(d):
+        if d.get("instance") and not instance_cbs:
+            return False  # a callback that exists on one provider object only, and not on this instance's provider
         return providers is None or d["prov"] in providers or d["prov"] in ("machine", "free", "ext")
 
     return any(c.get("async") and att(c) for c in spec["cbs"]) or any(g.get("async") and att(g) for g in spec.get("guards", []))
